@@ -9,7 +9,7 @@ def known_matcher(d):
 
 
 CFG = {
-    "modules": ["HumphreyModel.Props.C07"],
+    "modules": ["HumphreyModel.Props.C07", "HumphreyModel.Props.C07Roundtrip"],
     "rule": "resp_parse: responses generated from an AST (every StatusCode, any reason phrase, 0..40 headers from a "
             "small per-response name pool incl. repeated Set-Cookie, bodies 0..64 KiB) framed with Content-Length, "
             "chunked (EVERY division of bodies of 0..6 bytes into chunks; random divisions above; hex sizes in upper, "
@@ -33,8 +33,13 @@ CFG = {
     "level_text": "Table theorems re-checked against the running code on every run (status round trip, injectivity, "
                   "registered reason phrases, header-name spelling round trip); response_parse_segmentation_independent "
                   "for every byte stream and framing (simulation proof); set_cookie_attributes for every attribute "
-                  "subset. Validity of the serialised message and parse(serialise r) = r are judged per case by the "
-                  "independent recogniser in the correspondence run, not yet by Lean theorems.",
+                  "subset. Props/C07Roundtrip.lean: parseMsg_serialize_wf / serialize_valid_partial (for every well-formed "
+                  "response the serialised bytes are accepted by the independent strict recogniser as exactly that response; "
+                  "= none for empty bodies; for non-empty bodies exactly the recorded CRLF pad remains — serialize_valid_false "
+                  "proves the unrestricted statement false); parse_serialize (+ every read segmentation) for responses with "
+                  "the added Content-Length or no body; parse_serialize_close_delimited; chunked_decode: every division of a "
+                  "body into non-empty chunks, any valid hex spelling of the sizes, Transfer-Encoding at any position, parses "
+                  "to the plain body with its Content-Length, under every read segmentation.",
     "level_note": "Trusted: Lean kernel; Model/Response.lean tied to response.rs/status.rs/cookie.rs by the differential run. "
                   "Known finding: CRLF appended after a non-empty body (test-pinned).",
     "technique": "Lean 4 table theorems over regenerated tables + simulation proof + differential correspondence with a strict recogniser",
